@@ -79,6 +79,17 @@ impl Stats {
     }
 }
 
+static CURRENT: Mutex<(String, bool)> = Mutex::new((String::new(), false));
+
+/// watchdog limit for one work item (items normally take milliseconds; a real hang is infinite)
+pub fn hang_limit() -> u64 {
+    if CURRENT.lock().unwrap().1 {
+        600_000
+    } else {
+        180_000
+    }
+}
+
 pub fn threads() -> usize {
     std::env::var("VERIF_THREADS").ok().and_then(|s| s.parse().ok()).unwrap_or_else(|| {
         std::thread::available_parallelism().map(|n| n.get()).unwrap_or(8).min(16)
@@ -145,6 +156,12 @@ pub fn par_items<T: Sync>(
                 while !watch.done.load(Ordering::Acquire) {
                     std::thread::sleep(std::time::Duration::from_millis(50));
                     if let Some(i) = watch.overdue() {
+                        let prop = CURRENT.lock().unwrap().0.clone();
+                        let path = format!("{VERIF_ROOT}/replays/{prop}-hang.json");
+                        let _ = std::fs::create_dir_all(format!("{VERIF_ROOT}/replays"));
+                        let _ = std::fs::write(&path, format!("{{\"property\": \"{prop}\", \"fingerprint\": \"{prop} a work item did not finish within the watchdog limit\", \"only\": \"\"}}"));
+                        println!("VIOLATION property={prop} replay={path}");
+                        println!("  fingerprint: {prop} a work item did not finish within {} ms (hang)", watch.limit_ms);
                         if i < items.len() {
                             on_hang(&items[i]);
                         }
@@ -364,6 +381,7 @@ pub struct Run {
 impl Run {
     pub fn new(property: &str, tier: &str, level: &'static str, only: Option<String>) -> Self {
         let seed = std::env::var("VERIF_SEED").ok().and_then(|s| s.parse().ok()).unwrap_or(0);
+        *CURRENT.lock().unwrap() = (property.to_string(), tier == "thorough");
         Run {
             property: property.to_string(),
             tier: tier.to_string(),
